@@ -83,12 +83,27 @@ class Run:
                 return
             if R.BASE_OF.get(s.type, s.type) != R.BASE_OF.get(old.type, old.type):
                 return
-            info = R.make_info(s)
+            held = self.infos.get(key)
+            if held is not None and rng.random() < 0.4:
+                # applications that keep their ServiceInfo change it in place (the TTLs, port, weight and priority are plain
+                # attributes, the addresses have a setter) and hand the same object to update_service
+                s.type, s.server, s.text = old.type, old.server, old.text
+                keep_addrs = rng.random() < 0.5
+                if keep_addrs:
+                    s.addrs4, s.addrs6 = list(old.addrs4), list(old.addrs6)
+                info = held
+                info.host_ttl, info.other_ttl = s.host_ttl, s.other_ttl
+                info.port, info.weight, info.priority = s.port, s.weight, s.priority
+                if not keep_addrs:
+                    info.addresses = list(s.addrs4) + list(s.addrs6)
+                self.last_op = "update-inplace" + ("" if keep_addrs else "+addrs")
+            else:
+                info = R.make_info(s)
+                self.last_op = "update"
             task = await zc.async_update_service(info)
             self.model.register(s)
             self.infos[key] = info
-            self.ops.append(["update", s.brief()])
-            self.last_op = "update"
+            self.ops.append([self.last_op, s.brief()])
         else:
             key = rng.choice(names)
             info = self.infos.pop(key)
